@@ -129,6 +129,11 @@ def run(P, rep, tier):
                 enc = [i for i, e in enumerate(evs) if e.kind == 'encode' and (e.data['recv'] is content or
                        (isinstance(e.data['recv'], Unk) and e.data['recv'].src and e.data['recv'].src[0] == 'call'))]
                 splits = [i for i, e in enumerate(evs) if e.kind == 'summary-call' and e.data['callee'].name == 'split_lines']
+                from sa.props.common import encoded_piecewise
+                pw_ = encoded_piecewise(evs, content)
+                if pw_ is not None:
+                    order_bad['encode-piecewise'] = ('the text is encoded piece by piece (%s), not once as a whole: the reader decodes the '
+                                                     'section as a whole, so per-piece byte order marks come back as characters' % norm(pw_.node)[:50])
                 indw = [i for i, e in enumerate(evs) if e.kind == 'stream-write' and e.data['stream'] is not fp]
                 # line endings of text are detected on the text itself (code-unit aligned), not on its encoded bytes
                 for e_ in evs:
